@@ -532,7 +532,13 @@ class _Metadata:
         object.__setattr__(self, '_fields', fields)
 
     def __getattr__(self, name):
-        return self._fields.get(name)
+        # Look in __dict__ directly: copy and pickle create the instance without
+        # calling __init__, then ask it for special methods.
+        try:
+            fields = self.__dict__['_fields']
+        except KeyError:
+            raise AttributeError(name) from None
+        return fields.get(name)
 
     def __setattr__(self, name, value):
         self._fields[name] = value
